@@ -16,9 +16,9 @@ vars == <<st, env, res, hist>>
 MC_Own == 5
 MC_OwnP == [p1 |-> 128, p2 |-> 128]
 MC_Q0 == [class |-> 248, acc |-> 254, var |-> 65535]
-MC_TP0 == [utc |-> "null", leap |-> 0, tt |-> FALSE, ft |-> FALSE, ptp |-> FALSE, src |-> 160]
-PCfg_E == << [p2p |-> FALSE, mo |-> FALSE, aml |-> "any", keep |-> 1] >>
-PCfg_K == << [p2p |-> FALSE, mo |-> FALSE, aml |-> "any", keep |-> 2] >>   \* announce interval twice the BMCA interval: needs a 2nd port in the world
+MC_TP0 == [utc |-> NoUtc, leap |-> 0, tt |-> FALSE, ft |-> FALSE, ptp |-> FALSE, src |-> 160]
+PCfg_E == << [p2p |-> FALSE, mo |-> FALSE, aml |-> AnyId, keep |-> 1] >>
+PCfg_K == << [p2p |-> FALSE, mo |-> FALSE, aml |-> AnyId, keep |-> 2] >>   \* announce interval twice the BMCA interval: needs a 2nd port in the world
 
 \* master 2 is better than the local clock, 3 better still, 9 is worse; 4 is better but reports stepsRemoved 255
 GmOf(m) == CASE m = 2 -> <<127, 248, 254, 65535, 128, 2>>
